@@ -755,6 +755,12 @@ func TestRaceC09(t *testing.T) {
 			for time.Now().Before(end) && !failed.Load() {
 				i := next.Add(1)
 				c := p.Gen((seed<<20)+i, "race")
+				if ks, ok := p.(harness.KnownStripper); ok {
+					// the recorded known finding is the simulation's to report, once: this leg runs without its construct
+					if sc, found := ks.StripKnown(c); found {
+						c = sc
+					}
+				}
 				// for a stretch of 40 ms every program that gives its probe a Go type of its own uses the SAME one
 				// (so that one function type stays in use next to the script function types long enough to meet
 				// them wherever the interpreter keeps something per type), then the next one
